@@ -77,6 +77,18 @@ let run_case (cfgs : string) (ops : string list) : string =
 let handle (line : string) : string =
   match split_on ' ' line with
   | ["U"; cfgs; ops] -> run_case cfgs (split_on ';' ops)
+  | ["B"; n; _] ->
+    (* n datagrams from one peer to one listener: the model accepts once and reports each datagram as one data event *)
+    let c = { c_chunk = n_of_int 65536; c_maxq = n_of_int 1024; c_cbp = true; c_maxsess = n_of_int 0; c_idle = Z0 } in
+    let k = int_of_string n in
+    let st = ref (uinit [n_of_int 1]) in
+    let data = ref 0 and accepts = ref 0 in
+    for i = 0 to k - 1 do
+      let (s', evs) = ustep c Z0 !st (URecv (n_of_int 1, n_of_int 0, [n_of_int (1 + (i land 127))])) in
+      st := s';
+      List.iter (fun e -> match e with EData _ -> incr data | EAccept _ -> incr accepts | _ -> ()) evs
+    done;
+    Printf.sprintf "B delivered=%d/%d dup=0 sessions=1 accepts=%d" !data k !accepts
   | _ -> "BADCASE"
 
 let () = run_cases handle
